@@ -130,15 +130,6 @@ Proof.
   destruct (tins_all t r1) as [t'|]; cbn [obind]; [apply H2|reflexivity].
 Qed.
 
-(* stored segments only, and the recursion never runs out of fuel at a directory *)
-Definition is_sto (x : seg) : bool := match x with Sto _ _ _ _ => true | Mem _ _ => false end.
-Fixpoint ready (fuel : nat) (s : fs C) (d : nat) : bool :=
-  match fuel with
-  | O => false
-  | S f => forallb (fun e => if is_dir C s (snd e) then ready f s (snd e) else forallb is_sto (file_segs mb s (snd e)))
-                   (dir_ents C s d)
-  end.
-
 Lemma marshal_dir_S fuel tab st d prefix :
   marshal_dir mb (S fuel) tab st d prefix =
     let s := fsys mb st in
@@ -297,14 +288,14 @@ Lemma marshal_fold_eq files :
   = fold_left (file_step tab (blocks mb st) (file_segs mb s)) files ([], [], 0).
 Proof. reflexivity. Qed.
 
-Lemma ready_S fuel d : ready (S fuel) s d = true ->
+Lemma ready_S fuel d : ready mb (S fuel) s d = true ->
   forall e, In e (dir_ents C s d) ->
-    if is_dir C s (snd e) then ready fuel s (snd e) = true else forallb is_sto (file_segs mb s (snd e)) = true.
+    if is_dir C s (snd e) then ready mb fuel s (snd e) = true else forallb is_sto (file_segs mb s (snd e)) = true.
 Proof.
   cbn [ready]. intros H e He. rewrite forallb_forall in H. specialize (H e He). destruct (is_dir C s (snd e)); exact H.
 Qed.
 
-Theorem marshal_dir_loads : forall fuel d prefix, prefix <> "" -> is_dir C s d = true -> ready fuel s d = true ->
+Theorem marshal_dir_loads : forall fuel d prefix, prefix <> "" -> is_dir C s d = true -> ready mb fuel s d = true ->
   exists lines, marshal_dir mb fuel tab st d prefix = unlines lines /\ Forall nonl lines /\
                 loads_as tab lines (records_T prefix (extract fuel s d)).
 Proof.
@@ -368,7 +359,7 @@ Theorem marshal_text_loads_back tab st :
   TabOK tab -> InTab tab (blocks mb st) -> BInv mb st -> EntsOK C (fsys mb st) ->
   let s := fsys mb st in
   let fuel := length (inodes C s) in
-  ready fuel s root_id = true ->
+  ready mb fuel s root_id = true ->
   exists t, t_load tab (marshal_dir mb fuel tab st root_id ".") = Some t /\
             listing_T "." t = tree_listing C content s.
 Proof.
@@ -404,7 +395,7 @@ Theorem b_marshal_round_trip (Hmb : 1 <= mb) tab st st1 txt :
   TabOK tab -> BInv mb st -> EntsOK C (fsys mb st) ->
   b_marshal mb tab st = (st1, Ok txt) ->
   InTab tab (blocks mb st1) ->
-  ready (length (inodes C (fsys mb st1))) (fsys mb st1) root_id = true ->
+  ready mb (length (inodes C (fsys mb st1))) (fsys mb st1) root_id = true ->
   exists t, t_load tab txt = Some t /\
             listing_T "." t = tree_listing Spec (fun b => b) (abs mb (fsys mb st)).
 Proof.
